@@ -110,6 +110,7 @@ type net struct {
 	now      int64
 	gst      int64 // after this time: no drops, bounded delay, adversary silent
 	byzActs  int   // how often the adversary acted in this run
+	rawPowers string // the members' storage powers in table order
 	delayMax int64
 	dropPct  int
 	dupPct   int
@@ -639,13 +640,26 @@ func runOnce(out *vh.Out, rng *vh.Rng, runNo int, mode string) {
 			}
 		}
 		pub, _ := n.sig.GenerateKey()
-		entries[i] = gpbft.PowerEntry{ID: gpbft.ActorID(100 + i), Power: gpbft.StoragePower{Int: big.NewInt(pw)}, PubKey: pub}
+		bp := big.NewInt(pw)
+		if runNo%4 == 3 && style != 4 {
+			// storage power of realistic magnitude (bytes: TiB .. EiB per member; 65535*power beyond int64 while the
+			// total may still fit); derived from the run number so that the random stream of the run is unchanged
+			bp.Lsh(bp, uint(33+(runNo*7)%16))
+		}
+		entries[i] = gpbft.PowerEntry{ID: gpbft.ActorID(100 + i), Power: gpbft.StoragePower{Int: bp}, PubKey: pub}
 	}
 	pt := gpbft.NewPowerTable()
 	if err := pt.Add(entries...); err != nil {
 		panic(err)
 	}
 	n.table = pt
+	{
+		raw := make([]string, len(pt.Entries))
+		for i, e := range pt.Entries {
+			raw[i] = e.Power.String()
+		}
+		n.rawPowers = strings.Join(raw, ",")
+	}
 	keys := pt.Entries.PublicKeys()
 	agg, err := n.sig.Aggregate(keys)
 	if err != nil {
@@ -789,6 +803,7 @@ func runOnce(out *vh.Out, rng *vh.Rng, runNo int, mode string) {
 		tb = append(tb, fmt.Sprintf("%d:%d", e.ID, pt.ScaledPower[i]))
 	}
 	out.Line("tbl %s", strings.Join(tb, ","))
+	out.Line("pow %s", n.rawPowers)
 	var to2, reb []string
 	for r := 0; r < 48; r++ {
 		d := time.Duration(float64(delta) * 1 * math.Pow(exp, float64(r)))
